@@ -110,7 +110,24 @@ def run_axis(repo, res, modules, mirror=True, exempt=None):
                 mirrors += 1
                 res.inst('T-MIRROR')
                 res.obligations += 1
-                if kind == 'mirror':
+                if kind == 'mirror' and AX.operator_mismatch(s1, s2) is not None:
+                    oa, ob = AX.operator_mismatch(s1, s2)
+                    st = enclosing_stmt(s2) or s2
+                    if (f.fullname, norm_stmt_text(st)) in exempt:
+                        res.discharged += 1
+                        continue
+                    res.add(Finding('T-MIRROR', f.fullname, 'operator ' + norm_stmt_text(st), f'{f.module.relpath}:{getattr(s2, "lineno", 0)}',
+                                    f'{f.qualname}: `{unparse(s2, 90)}` is the axis mirror of `{unparse(s1, 90)}` but uses `{ob}` where the '
+                                    f'twin uses `{oa}`: the two axes are treated differently', {}))
+                elif kind == 'asymmetric':
+                    st = enclosing_stmt(s2) or s2
+                    if (f.fullname, norm_stmt_text(st)) in exempt:
+                        res.discharged += 1
+                        continue
+                    res.add(Finding('T-MIRROR', f.fullname, 'asymmetric ' + norm_stmt_text(st), f'{f.module.relpath}:{getattr(s2, "lineno", 0)}',
+                                    f'{f.qualname}: `{unparse(s2, 90)}` uses exactly the axis-flipped names of `{unparse(s1, 90)}` but combines '
+                                    f'them differently: one axis gets a treatment (clamp, offset, rounding) the other does not', {}))
+                elif kind == 'mirror':
                     res.discharged += 1
                     if len([s for s in res.samples if s.get('rule') == 'T-MIRROR']) < 3:
                         res.samples.append({'rule': 'T-MIRROR', 'function': f.fullname, 'x_side': unparse(s1, 80), 'y_side': unparse(s2, 80)})
@@ -1164,4 +1181,154 @@ def run_cache_pure(repo, res, classes=None, modules=None, exempt=()):
                 res.add(Finding('CACHE-PURE', s_.finfo.fullname, f'{fld}: {norm_stmt_text(s_.stmt)}', s_.loc,
                                 f'{f.qualname} modifies the cached value of `{c.name}.{fld}` in place ({s_.describe()}): the property then '
                                 f'reports something else than its getter returned, depending on the call history', {}))
+    return n
+
+
+def run_mutable_default(repo, res, modules):
+    """A parameter default bound to a mutable display (`[]`, `{}`, `set()`, `dict()`, `list()`) that the function then modifies
+    or stores is created once and shared by every call that omits the argument: results depend on earlier calls."""
+    n = 0
+    for f in repo.functions.values():
+        if f.module.name not in modules:
+            continue
+        a = f.node.args
+        pos = a.posonlyargs + a.args
+        pairs = list(zip(pos[len(pos) - len(a.defaults):], a.defaults)) + [(p, d) for p, d in zip(a.kwonlyargs, a.kw_defaults) if d is not None]
+        for p, d in pairs:
+            mutable = isinstance(d, (ast.List, ast.Dict, ast.Set)) or \
+                (isinstance(d, ast.Call) and unparse(d.func, 0).split('.')[-1] in ('dict', 'list', 'set', 'defaultdict', 'OrderedDict')
+                 and not d.args and not d.keywords)
+            if not mutable:
+                continue
+            name = p.arg
+            touched = None
+            for node in ast.walk(f.node):
+                if isinstance(node, ast.Call) and isinstance(node.func, ast.Attribute) and isinstance(node.func.value, ast.Name) \
+                        and node.func.value.id == name and node.func.attr in ('append', 'extend', 'update', 'add', 'setdefault', 'pop',
+                                                                              'clear', 'insert', 'remove', 'sort', 'popitem'):
+                    touched = node
+                elif isinstance(node, (ast.Assign, ast.AugAssign)):
+                    tg = node.targets if isinstance(node, ast.Assign) else [node.target]
+                    for t in tg:
+                        if isinstance(t, ast.Subscript) and isinstance(t.value, ast.Name) and t.value.id == name:
+                            touched = node
+                        # stored on the object / passed on: the shared object escapes
+                        if isinstance(t, ast.Attribute) and isinstance(node, ast.Assign) and isinstance(node.value, ast.Name) \
+                                and node.value.id == name:
+                            touched = node
+                    if isinstance(node, ast.AugAssign) and isinstance(node.target, ast.Name) and node.target.id == name:
+                        touched = node
+                elif isinstance(node, ast.Call) and any(isinstance(x, ast.Name) and x.id == name for x in node.args) \
+                        and not (isinstance(node.func, ast.Name) and node.func.id in ('len', 'isinstance', 'list', 'tuple', 'dict', 'set',
+                                                                                     'sorted', 'enumerate', 'zip', 'any', 'all')):
+                    touched = touched or node
+                elif isinstance(node, ast.Call) and any(isinstance(k.value, ast.Name) and k.value.id == name for k in node.keywords):
+                    touched = touched or node
+                elif isinstance(node, ast.Return) and isinstance(node.value, ast.Name) and node.value.id == name:
+                    touched = touched or node
+            n += 1
+            ok = touched is None
+            res.oblige('MUTABLE-DEFAULT', f'{f.qualname}({name}=<mutable>): the shared default is never modified, stored or passed on', ok,
+                       nontrivial=True, sample={'function': f.fullname, 'parameter': name})
+            if not ok:
+                res.add(Finding('MUTABLE-DEFAULT', f.fullname, f'default of {name}', f'{f.module.relpath}:{d.lineno}',
+                                f'{f.qualname}: parameter `{name}` defaults to a mutable object (`{unparse(d, 30)}`) created once at '
+                                f'definition time and the function modifies/stores/passes it (`{norm_stmt_text(enclosing_stmt(touched))}`): '
+                                f'every call that omits `{name}` shares it, so a call depends on the calls before it', {}))
+    res.inst('MUTABLE-DEFAULT', 0)
+    return n
+
+
+def run_loop_break(repo, res, modules):
+    """Per-element loops (over sources, rows, apertures ...) that handle a failing element with `continue` in an exception handler
+    must not `break` there: the remaining elements would be silently dropped.  Sibling handlers in the same loop agree."""
+    n = 0
+    for f in repo.functions.values():
+        if f.module.name not in modules:
+            continue
+        for loop in ast.walk(f.node):
+            if not isinstance(loop, ast.For):
+                continue
+            for h in ast.walk(loop):
+                if not isinstance(h, ast.ExceptHandler):
+                    continue
+                # innermost enclosing loop of the handler must be this loop
+                p = getattr(h, '_parent', None)
+                inner = None
+                while p is not None and p is not f.node:
+                    if isinstance(p, (ast.For, ast.While)):
+                        inner = p
+                        break
+                    p = getattr(p, '_parent', None)
+                if inner is not loop:
+                    continue
+                brk = [s for s in h.body if isinstance(s, ast.Break)]
+                n += 1
+                ok = not brk
+                res.oblige('LOOP-BREAK', f'{f.qualname}: an element that raises is skipped, the loop goes on', ok, nontrivial=True,
+                           sample={'function': f.fullname, 'handler': unparse(h.type, 40) if h.type is not None else 'bare'})
+                if not ok:
+                    res.add(Finding('LOOP-BREAK', f.fullname, f'break in except {unparse(h.type, 40) if h.type is not None else ""}',
+                                    f'{f.module.relpath}:{brk[0].lineno}',
+                                    f'{f.qualname}: the handler of `{unparse(h.type, 40) if h.type is not None else "except"}` inside the '
+                                    f'loop over `{unparse(loop.iter, 40)}` leaves the loop (`break`): every element after the first failing '
+                                    f'one is silently dropped, so the result depends on the order of the elements', {}))
+    res.inst('LOOP-BREAK', 0)
+    return n
+
+
+_PACK = [('T-AXIS', 'run_axis'), ('DEADSTORE', 'run_deadstore'), ('CLASS-MUTABLE', 'run_class_mutable'),
+         ('MUTABLE-DEFAULT', 'run_mutable_default'), ('LOOP-BREAK', 'run_loop_break'), ('NONFINITE', 'run_nonfinite'),
+         ('LABEL-EQ', 'run_label_eq'), ('ROUND', 'run_round'), ('LOOP-TWIN', 'run_loop_twin'),
+         ('GENERIC-DECOR', 'run_no_cached_property'), ('NO-OVERWRITE', 'run_no_overwrite_input'), ('SLICE-KIND', 'run_slice_kind'),
+         ('LOOPVAR', 'run_loopvar_used'), ('UNRAVEL', 'run_unravel'), ('FWD', 'run_forward'), ('UNIT-LAST', 'run_unit_last'),
+         ('LATE-UPDATE', 'run_late_update'), ('AXIS-DISPATCH', 'run_axis_dispatch'), ('KEYPAIR', 'run_keypair')]
+_PROPERTY_MODULES = None
+
+
+def property_modules(prop):
+    """Modules named by the property's code anchors in properties.jsonl (the scope of the generic pack for that property)."""
+    global _PROPERTY_MODULES
+    if _PROPERTY_MODULES is None:
+        import json
+        import os
+        _PROPERTY_MODULES = {}
+        path = os.path.join(os.path.dirname(os.path.dirname(os.path.dirname(os.path.abspath(__file__)))), 'properties.jsonl')
+        with open(path, encoding='utf-8') as fh:
+            for line in fh:
+                line = line.strip()
+                if not line:
+                    continue
+                p = json.loads(line)
+                mods = set()
+                for fn in (p.get('anchors') or {}).get('files', []):
+                    if fn.endswith('.py'):
+                        m = fn[:-3].replace('/', '.')
+                        if m.endswith('.__init__'):
+                            m = m[:-9]
+                        mods.add(m)
+                _PROPERTY_MODULES[p['id']] = mods
+    return _PROPERTY_MODULES.get(prop, set())
+
+
+def run_generic_pack(repo, res, prop, extra_modules=()):
+    """Rules that hold package-wide on the pinned tree and need no per-property instance table.  Every property runs them over
+    the modules of its code anchors (plus the modules its own rules name), so that a slip of a generic kind is reported by every
+    property that depends on the touched module, not only by the property in whose round the rule was first written."""
+    from ..forward import run_forward
+    mods = {m for m in set(property_modules(prop)) | set(extra_modules) if m in repo.modules}
+    if not mods:
+        return 0
+    before = dict(res.rule_instances)
+    rest = {m for m in mods if m not in set(extra_modules)} if extra_modules else set()
+    n = 0
+    for rule, fname in _PACK:
+        fn = globals().get(fname) or run_forward
+        # a rule the property already ran over its own module set (MODS) is run over the remaining anchor modules only
+        scope = mods if rule not in before else rest
+        if not scope:
+            continue
+        r_ = fn(repo, res, scope)
+        n += r_ if isinstance(r_, int) else 0
+    res.notes['generic_pack_modules'] = sorted(mods)
     return n
